@@ -2,7 +2,7 @@ import Aiorpcx.Common.Hex
 import Aiorpcx.C09.Model
 /-! Line-protocol driver (monitor) for the TaskGroup model.
     in : `<policy all|any|object|none>[!] ; <action> ; <action> ...`   (`!` = pinned join)
-         S i d c:d,c:d|-   F i n|v|e perm   X i perm   Y i perm   J perm   E 0|1 perm   K perm
+         S i d c:d,c:d|-   F i n|v|e perm   X i perm   Y i perm   J perm   E 0|1|c perm (c = the body was cancelled)   K perm
          N k perm          (perm = comma separated ids or -)
     out: one `obs=.. j=.. c=.. d=..` record per action, separated by ` ; ` -/
 open Aiorpcx Aiorpcx.C09
@@ -26,7 +26,7 @@ def parseAction (s : String) : Option Action :=
   | ["X", i, p] => do pure (.extCancel (← i.toNat?) (← parseList p))
   | ["Y", i, p] => do pure (.finCancel (← i.toNat?) (← parseList p))
   | ["J", p] => do pure (.join (← parseList p))
-  | ["E", r, p] => do pure (.ctxExit (r == "1") (← parseList p))
+  | ["E", r, p] => do pure (.ctxExit (r == "1" || r == "c") (← parseList p))
   | ["K", p] => do pure (.cancelJoiner (← parseList p))
   | ["N", k, p] => do pure (.nextDone (← k.toNat?) (← parseList p))
   | _ => none
